@@ -14,6 +14,8 @@
 #endif
 static bool     g_entered[VM_NS];        // C03: enter/exit alternation
 static uint8_t  g_enter_count[VM_NS], g_exit_count[VM_NS];
+static const void* g_this[VM_NS];       // C03: the object each state's callbacks are delivered to (must be the one access<State>() returns)
+static bool     g_this_consistent = true;
 static bool     g_protocol_ok = true;    // set false by any monitor violation that is also asserted at the spot
 // case key (assigned concretely by the entry wrappers)
 static int      g_issuer = -1;           // state id whose update()/react() issues a request (-1: none)
@@ -91,6 +93,7 @@ struct St : FSM::State {
     } else { cancel = g_deterministic ? false : nd_bool(); if (cancel) c.cancelPendingTransitions(); }
     if (cancel) { g_cancel_round[round] = true; g_round_cancelled = true; ++g_cancels_issued; }
   }
+  void note_this() { if (g_this[ID] && g_this[ID] != (const void*) this) g_this_consistent = false; g_this[ID] = (const void*) this; }
   void entryGuard(typename Base::GuardControl& c) { trace_push(ID, Method::ENTRY_GUARD); g_entry_guard_ran[ID] = true; guard_common(c, true); }
   void exitGuard(typename Base::GuardControl& c) {
     VASSERT(C03, g_entered[ID], "exitGuard is delivered only to an entered state");
@@ -100,7 +103,7 @@ struct St : FSM::State {
 #ifdef VM_PAYLOAD
     if (g_pay_n) { check_payloads(c.currentTransitions(), false); VASSERT(C14, c.currentTransitions().count() == (unsigned) g_pay_n, "states being entered read the step's transitions from currentTransitions()"); }
 #endif
-    (void) c; trace_push(ID, Method::ENTER);
+    (void) c; trace_push(ID, Method::ENTER); note_this();
     if (g_expect_guards) VASSERT(C04, g_entry_guard_ran[ID], "a state is entered only after its entry guard was consulted in this step");
     VASSERT(C03, !g_entered[ID], "enter and exit strictly alternate, beginning with enter");
     VASSERT(C03, VM_SPEC[ID].parent < 0 || !VM_HAS_STUB(VM_SPEC[ID].parent) || g_entered[VM_SPEC[ID].parent], "a state is entered after its parent");
@@ -108,7 +111,7 @@ struct St : FSM::State {
   }
   void reenter(typename Base::PlanControl&) { trace_push(ID, Method::REENTER); VASSERT(C03, g_entered[ID], "reenter is delivered only to an entered state"); }
   void exit(typename Base::PlanControl&) {
-    trace_push(ID, Method::EXIT);
+    trace_push(ID, Method::EXIT); note_this();
     VASSERT(C03, g_entered[ID], "exit is delivered only to an entered state");
     if (g_expect_guards) VASSERT(C04, g_exit_guard_ran[ID], "a state is exited only after its exit guard was consulted in this step");
     for (int c = ID + 1; c < VM_NS; ++c) if (VM_SPEC[c].parent == ID) VASSERT(C03, !g_entered[c], "a state is exited after its sub-states");
@@ -148,7 +151,7 @@ struct St : FSM::State {
     }
   }
   void preUpdate(typename Base::FullControl&)  { VASSERT(C03, g_entered[ID], "preUpdate is delivered only to an entered state"); seq_push(ID, PH_PRE_UPDATE); trace_push(ID, Method::PRE_UPDATE); }
-  void update(typename Base::FullControl& c)   { VASSERT(C03, g_entered[ID], "update is delivered only to an entered state"); seq_push(ID, PH_UPDATE); trace_push(ID, Method::UPDATE); issue(c);
+  void update(typename Base::FullControl& c)   { VASSERT(C03, g_entered[ID], "update is delivered only to an entered state"); seq_push(ID, PH_UPDATE); trace_push(ID, Method::UPDATE); note_this(); issue(c);
 #ifdef VM_PLANS
     if (ID == g_actor) { if (g_action == 1) c.succeed(); if (g_action == 2) c.fail(); }
 #endif
